@@ -333,6 +333,19 @@ func checkC03(x *Exec, c *Case) ([]Violation, bool) {
 		x.Stats.Runs++
 		return accessorCheck(c), true
 	}
+	if c.Variant == "malformed-last" {
+		// a large final message whose every field arrives but whose declared
+		// length does not: it is not a message, nothing is executed for it
+		r := x.Run(c)
+		var viol []Violation
+		for i, cs := range r.Conns {
+			viol = append(viol, GrammarViolation("C03", i, ParseOut(cs))...)
+			if what := executedAfterLastFlight(cs); what != "" && i == 0 {
+				viol = append(viol, Violation{Prop: "C03", Rule: "incomplete-message-executed", Sig: "incomplete-message-executed", Detail: fmt.Sprintf("conn %d: the client's last message was never delivered in its declared length, yet it reached a callback: %s", i, what)})
+			}
+		}
+		return viol, true
+	}
 	// reference run: as generated, but without empty reads (a replayed case may
 	// carry the empty read that made a difference; it is then run as a variant)
 	given := c
@@ -533,7 +546,7 @@ func checkC03(x *Exec, c *Case) ([]Violation, bool) {
 func init() {
 	register(&Prop{
 		ID: "C03", Level: "exploration", QuickS: 25, ThoroughS: 420,
-		Rule:        "seeded client byte streams (valid sessions of every phase incl. SSLRequest->N, COPY, oversized messages; messages carrying grammar-external surplus bytes: Parse with parameter OIDs, Execute/Sync/Flush/Query/Describe/Close/Bind with trailing junk, SSLRequests carrying bytes inside their declared length, Describe/Close with undefined kind bytes; a truncated or mis-sized final message) each run under its generated segmentation and then under: all at once, one byte per read, cuts inside every 5-byte header ({2,3},{4,1},{5},{6,1,1}), a cut at every message boundary and 3 seeded cut lists, plus four runs with one legal empty read (0 bytes, no error) at a seeded read index; canonical transcript, output length and callback trace must be identical across all of them, and equal to the run with the surplus bytes removed; accessor clause: buffer.Reader driven directly over the segmenting reader with a generated message body followed by a canary message, a random sequence of GetString/GetBytes(n>=0)/GetUint16/GetUint32/GetPrepareType compared call by call with an independent cursor (no panic, errors exactly on short/unterminated data, canary message intact afterwards); every case counts as two more differential runs: one read reports a transient timeout (no byte lost; identical if the server carries on, a prefix if it gives up; not when a handler reads the stream itself), the client's last bytes arrive together with io.EOF; non-trivial (each is a differential over >= 9 segmentations); distinct = distinct case content hashes",
+		Rule:        "seeded client byte streams (valid sessions of every phase incl. SSLRequest->N, COPY, oversized messages; messages carrying grammar-external surplus bytes: Parse with parameter OIDs, Execute/Sync/Flush/Query/Describe/Close/Bind with trailing junk, SSLRequests carrying bytes inside their declared length, Describe/Close with undefined kind bytes; a truncated or mis-sized final message; final messages of 64 KiB - 400 KB within the limit whose fields all arrive but whose declared length does not: nothing is executed for them) each run under its generated segmentation and then under: all at once, one byte per read, cuts inside every 5-byte header ({2,3},{4,1},{5},{6,1,1}), a cut at every message boundary and 3 seeded cut lists, plus four runs with one legal empty read (0 bytes, no error) at a seeded read index; canonical transcript, output length and callback trace must be identical across all of them, and equal to the run with the surplus bytes removed; accessor clause: buffer.Reader driven directly over the segmenting reader with a generated message body followed by a canary message, a random sequence of GetString/GetBytes(n>=0)/GetUint16/GetUint32/GetPrepareType compared call by call with an independent cursor (no panic, errors exactly on short/unterminated data, canary message intact afterwards); every case counts as two more differential runs: one read reports a transient timeout (no byte lost; identical if the server carries on, a prefix if it gives up; not when a handler reads the stream itself), the client's last bytes arrive together with io.EOF; non-trivial (each is a differential over >= 9 segmentations); distinct = distinct case content hashes",
 		Components:  append(append([]string{}, e1Components...), "accessor clause: real pkg/buffer.Reader over a stub segmenting io.Reader (input generation riding on the simulated transport)"),
 		Assumptions: commonAssumptions,
 		Gen: func(r *Rand, tier string) *Case {
@@ -542,6 +555,13 @@ func init() {
 			}
 			if r.Chance(1, 10) {
 				return genC03Boundary(r)
+			}
+			if r.Chance(1, 60) {
+				// a final message of 64 KiB - 400 KB that is never delivered in its
+				// declared length although all of its fields arrive
+				c := c04LargeTruncated(r)
+				c.Conns = c.Conns[:1]
+				return c
 			}
 			c := &Case{Server: ServerCfg{Limit: r.PickInt(1000, 4096, 65536, 65536)}}
 			if r.Chance(1, 5) {
